@@ -3,14 +3,10 @@ module verifharness
 go 1.18
 
 require (
-<<<<<<< HEAD
-	github.com/rhysd/actionlint v0.0.0
-	gopkg.in/yaml.v3 v3.0.1
-=======
 	github.com/bmatcuk/doublestar/v4 v4.8.0
 	github.com/mattn/go-runewidth v0.0.16
 	github.com/rhysd/actionlint v0.0.0
->>>>>>> wp-out
+	gopkg.in/yaml.v3 v3.0.1
 )
 
 require (
